@@ -183,13 +183,34 @@ RefOutcome(op, u) ==
     [] op \in {"square", "pow2"} -> IF HasOff(u) THEN Raise("InvalidUnitOperation") ELSE Opaque("power")   \* unit * unit: Unit.__mul__ guard
     [] OTHER -> Opaque("power")                                                 \* Unit.__pow__ has no offset guard
 
+(* ---------------- chains of conversion routes on the SAME source object ---------------- *)
+\* c.chain = <<[r, v], ...>>: every route is applied to the source x (unit c.u0, readings X(c, 0)), except
+\* "prev_iadd", which adds 1 in place to the previous step's result.  Every conversion route copies
+\* ("cconvert*" = convert_to_units / convert_to_base on x.copy()), so after every step the source must still
+\* denote the same readings, and every result is the affine image of those readings.
+ConvRoutesV == {"to", "in_units", "to_value", "cconvert"}                               \* explicit target s.v
+ConvRoutesK == {"in_base_mks", "in_base_cgs", "in_mks", "in_cgs", "cconvert_base"}      \* base unit kelvin
+ConvRoutesR == {"in_base_imperial"}                                                     \* base unit rankine
+IsConvRoute(r) == r \in ConvRoutesV \cup ConvRoutesK \cup ConvRoutesR
+RouteTarget(s) == IF s.r \in ConvRoutesV THEN s.v ELSE IF s.r \in ConvRoutesR THEN U("R", "") ELSE U("K", "")
+AsAdd(c, s) == [c EXCEPT !.fam = "bin", !.op = "add", !.form = "operator", !.u1 = s.v]
+RECURSIVE StepModel(_, _)
+StepModel(c, i) ==
+  LET s == c.chain[i] IN
+  IF IsConvRoute(s.r) THEN Val(RouteTarget(s), Map1(LAMBDA x : AffIn(x, c.u0, RouteTarget(s)), X(c, 0)))
+  ELSE IF s.r = "add_diff" THEN BinOutcome("add", c.u0, s.v, X(c, 0), X(c, 1))
+  ELSE LET p == StepModel(c, i - 1) IN Val(p.unit, Map1(LAMBDA x : TAdd(x, R(1)), p.v))      \* prev_iadd
+ChainOutcome(c) == [k |-> "chain", exc |-> "", unit |-> U("", ""), v |-> <<>>, k10 |-> 0,
+                    steps |-> [i \in DOMAIN c.chain |-> StepModel(c, i)]]
+
 (* ---------------- one case ---------------- *)
-\* c.fam in {"conv", "bin", "red", "ref"}; fields: op, form, u0, u1, rs (reading set), shape, part (partner kind of "ref")
+\* c.fam in {"conv", "bin", "red", "ref", "chain"}; fields: op, form, u0, u1, rs (reading set), shape, part (partner kind of "ref"), chain, dt
 Outcome(c) ==
   CASE c.fam = "conv" -> [k |-> "val", exc |-> "", unit |-> c.u1, v |-> Map1(LAMBDA x : AffMant(x, c.u0, c.u1), X(c, 0)), k10 |-> AffK10(c.u0, c.u1)]
     [] c.fam = "bin" -> BinOutcome(c.op, c.u0, c.u1, X(c, 0), X(c, 1))
     [] c.fam = "red" -> RedOutcome(c.op, c.u0, X(c, 0))
     [] c.fam = "ref" -> RefOutcome(c.op, c.u0)
+    [] c.fam = "chain" -> ChainOutcome(c)
 
 (* ---------------- C08: what the property demands of an observed outcome ---------------- *)
 \* obs = [k, exc, unit, v] as above; obs.unit = U("?", text) when the label is not a unit of the alphabet
@@ -223,10 +244,24 @@ PRed(c, obs) ==
   ELSE IF obs.v # Map1(LAMBDA d : DiffIn(d, c.u0, obs.unit), RedDeltas(c.op, X(c, 0))) THEN "affine-value"
   ELSE ""
 PRef(c, obs) == IF HasOff(c.u0) /\ obs.k # "raise" THEN "offset-scale-not-refused" ELSE ""
+\* one step of a chain: o = [k, exc, unit, v, srcunit, srcv] (result of the step, then what the source holds afterwards)
+StepClause(c, i, o) ==
+  LET s == c.chain[i] IN
+  IF o.srcunit # c.u0 \/ o.srcv # X(c, 0) THEN "source-reading-changed"
+  ELSE IF IsConvRoute(s.r) THEN
+       (IF o.k # "val" THEN "conversion-refused"
+        ELSE IF o.unit # RouteTarget(s) THEN "conversion-label"
+        ELSE IF o.v # StepModel(c, i).v THEN "affine-map" ELSE "")
+  ELSE IF s.r = "add_diff" THEN PBin(AsAdd(c, s), o)
+  ELSE ""
+BadSteps(c, obs) == {i \in DOMAIN c.chain : StepClause(c, i, obs.steps[i]) # ""}
+FirstBad(c, obs) == IF BadSteps(c, obs) = {} THEN 0 ELSE CHOOSE i \in BadSteps(c, obs) : \A j \in BadSteps(c, obs) : i <= j
+PChain(c, obs) == IF FirstBad(c, obs) = 0 THEN "" ELSE StepClause(c, FirstBad(c, obs), obs.steps[FirstBad(c, obs)])
 P(c, obs) == CASE c.fam = "conv" -> PConv(c, obs)
                [] c.fam = "bin" -> PBin(c, obs)
                [] c.fam = "red" -> PRed(c, obs)
                [] c.fam = "ref" -> PRef(c, obs)
+               [] c.fam = "chain" -> PChain(c, obs)
 \* The transcription after the repairs proposed in fixes/C08-*.patch (so that the check is silent on either tree):
 \*  _preserve_units returns the factor s_left/s_right when it picks the right operand's unit; diff_helper keeps the
 \*  array's own offset-free unit; Unit.__pow__ refuses units with an offset.
@@ -244,14 +279,23 @@ Matches(t, obs) ==
   /\ obs.k = t.k
   /\ (t.k = "raise" => obs.exc = t.exc)
   /\ (t.k \in {"val", "bool"} /\ t.unit.base # "?" => obs.unit = t.unit /\ obs.v = t.v)
-TOk(c, obs) == Matches(Outcome(c), obs) \/ Matches(FixedOutcome(c), obs)
+ChainTOk(c, obs) == \A i \in DOMAIN c.chain :
+  LET s == c.chain[i]  o == obs.steps[i] IN
+  IF s.r = "add_diff" THEN Matches(StepModel(c, i), o) \/ Matches(FixedOutcome(AsAdd(c, s)), o)
+  ELSE Matches(StepModel(c, i), o)
+TOk(c, obs) == IF c.fam = "chain" THEN ChainTOk(c, obs) ELSE Matches(Outcome(c), obs) \/ Matches(FixedOutcome(c), obs)
 
 \* values the harness may snap an observed float to: the transcription's and the property's for every plausible label
 Labels(c) == {c.u0, c.u1, U("delta_degC", ""), U("delta_degF", ""), U("K", "")}
 \* 32-bit head-room: the second reading set (300, 1/4, ...) only with decimal exponents within 3 of each other
 ExpLim(rs) == IF rs = 1 THEN 6 ELSE 3
 SeqSet(s) == {s[i] : i \in DOMAIN s}
+RECURSIVE Cands(_)
 Cands(c) ==
+  IF c.fam = "chain" THEN
+     SeqSet(X(c, 0)) \cup UNION {SeqSet(StepModel(c, i).v) : i \in DOMAIN c.chain}
+                    \cup UNION {Cands(AsAdd(c, c.chain[i])) : i \in {j \in DOMAIN c.chain : c.chain[j].r = "add_diff"}}
+  ELSE
   LET t == Outcome(c) IN
   SeqSet(t.v) \cup SeqSet(FixedOutcome(c).v) \cup
   (CASE c.fam = "bin" /\ c.op \in {"add", "subtract"} /\ ~MixedOffset(c.u0, c.u1) ->
